@@ -72,3 +72,26 @@ Theorem C05_tool_graph_output_judge_sound : forall rec signed co infmt inb rc ha
                 rep_matrix signed T C = MM.
 Proof. exact CliProofs.judge_cligraphout_sound. Qed.
 Print Assumptions C05_tool_graph_output_judge_sound.
+
+(* ---------- graphic and cographic 0/1 matrices are regular (GraphicRegular.v: a graph certificate yields a network
+   certificate of a signing; NetworkTU.v) ---------- *)
+From Cmr Require GraphicRegular RegCertModel RegCertProofs TuModel.
+Theorem C05_graphic_certificate_implies_regular : forall m n M G forest coforest,
+  wf_mat m n M = true -> is_binary M = true ->
+  check_graph_cert m n M G forest coforest = true -> TuModel.regular_bf m n M = true.
+Proof. exact GraphicRegular.graph_cert_regular. Qed.
+Print Assumptions C05_graphic_certificate_implies_regular.
+
+Theorem C05_cographic_certificate_implies_regular : forall m n M G forest coforest,
+  check_graph_cert n m (transpose m n M) G forest coforest = true ->
+  wf_mat m n M = true -> is_binary M = true -> TuModel.regular_bf m n M = true.
+Proof. exact GraphicRegular.graph_cert_regular_transpose. Qed.
+Print Assumptions C05_cographic_certificate_implies_regular.
+
+Theorem C05_regular_verdict_on_certified_matrices : forall rec cfg m n M rc v tr G f c r rest,
+  RegCertModel.regular_cert_input rec = Some ((cfg, (m, n, M), rc, v, tr, WGraph G f c r), rest) ->
+  wf_mat m n M = true -> is_binary M = true -> RegCertModel.cert_holds tr m n M G f c = true ->
+  RegCertModel.judge_regular_cert rec = 0 ->
+  rc = 0 /\ TuModel.regular_bf m n M = true /\ (v = 2 -> TuModel.cfg_stopflags cfg = true) /\ (v <> 2 -> v = 1).
+Proof. exact RegCertProofs.judge_regular_cert_sound. Qed.
+Print Assumptions C05_regular_verdict_on_certified_matrices.
